@@ -31,8 +31,12 @@ def gen_inputs(ctx):
         kind = rng.random()
         if kind < 0.5:
             tuples.append([rng.choice(U3) for _ in range(n)])
-        elif kind < 0.64:
+        elif kind < 0.58:
             tuples.append([random_sig(rng, 'abcd', 4) for _ in range(n)])
+        elif kind < 0.64:
+            # parameters that carry annotations and varied default values on some inputs only: what a
+            # merged parameter keeps of them must never make it optional where an input requires it
+            tuples.append([random_sig(rng, 'abcd', 4, meta=True) for _ in range(n)])
         elif kind < 0.72:
             # inputs that agree on a prefix of their positional parameters and then name the next
             # slots differently (several parameters renamed in one step), followed by inputs that
